@@ -315,6 +315,9 @@ type run struct {
 	// a registered child of the locus was killed while the locus was inside ProcessInit (a descendant parked in Init)
 	childDiedInStartup bool
 
+	stopGate   *hk.Gate
+	stopRanged bool // Node.Stop was held at node.stop.ranged while a start was in flight
+
 	// the application's member map is dead-locked: nothing about this node can be asked any more
 	wedged bool
 
@@ -438,6 +441,7 @@ func (x *run) nodeStop(tag string, force bool) error {
 	} else {
 		w.node.Stop()
 	}
+	nodesStopped.Add(1)
 	// what was registered when the call returned
 	snap := map[gen.PID]bool{}
 	var undead []*rec
@@ -531,8 +535,18 @@ func (x *run) applyCause() {
 			x.checkWedged(cl, "appstopforce-self-deadlock", "ApplicationStopForce")
 		}
 	case "nodestop":
+		if c.Moment == "startup" && stopRangedHookMayExist() {
+			// optional yield point node.stop.ranged (between the exit signals to all registered processes and
+			// waitprocesses.Wait()): holds Node.Stop there until the application start in flight has registered
+			// its processes. Without the yield point in /repo the gate is never reached and nothing changes.
+			x.stopGate = hk.Park("node.stop.ranged", hk.Eq(w.node.Name()), false).SetMaxWait(parkDeadline)
+		}
 		x.async("nodestop", func() error { return x.nodeStop("cause", false) })
 		x.waitStopping()
+		if x.stopGate != nil {
+			x.stopRanged = x.stopGate.WaitArrived(7 * time.Second)
+			w.step("Node.Stop held after its exit signals to the registered processes: %v", x.stopRanged)
+		}
 	case "nodestopforce":
 		x.forceIssued.Store(true)
 		cl := x.async("nodestopforce", func() error { return x.nodeStop("cause", true) })
@@ -557,6 +571,14 @@ func (x *run) checkWedged(cl *call, sig, name string) {
 	}
 	x.inconclusive("watchdog: " + name + " did not return")
 }
+
+// stopRangedHookMayExist: the yield point is passed by every Node.Stop/StopForce; once a node of this
+// process has been stopped without a hit, it does not exist in this build of /repo
+func stopRangedHookMayExist() bool {
+	return nodesStopped.Load() == 0 || hk.Hits("node.stop.ranged") > 0
+}
+
+var nodesStopped atomic.Int64
 
 // waitStopping waits (watchdog) until a graceful stop visibly began: the application left
 // state Running, or the stop call already returned
@@ -991,8 +1013,18 @@ func (x *run) body() {
 	// ---- wait for the harness calls
 	if startCall != nil {
 		if startCall.wait(8*time.Second) == false {
+			if x.stopGate != nil {
+				x.stopGate.Release()
+			}
 			x.checkWedged(startCall, "appstart-rollback-self-deadlock", "ApplicationStart (rolling back after a member failed to start)")
 			return
+		}
+	}
+	if x.stopGate != nil {
+		// the start in flight is over: its processes are registered; let Node.Stop go on to its wait
+		x.stopGate.Release()
+		if x.stopGate.TimedOut() {
+			x.inconclusive("gate: released by deadline")
 		}
 	}
 	x.mu.Lock()
@@ -1147,7 +1179,7 @@ func runOnce(c ccase) (*run, error) {
 	w.releaseAll()
 	if w.nodeRunning() {
 		d := make(chan struct{})
-		go func() { w.node.StopForce(); close(d) }()
+		go func() { w.node.StopForce(); nodesStopped.Add(1); close(d) }()
 		if x.wedged == false {
 			// (a wedged node cannot even be force-stopped: every termination blocks on the member map)
 			select {
@@ -1199,7 +1231,7 @@ func runCase(c ccase) {
 	}
 	w := x.w
 
-	nontrivial := len(x.parkedAtFault) > 0 || x.gateHeld || x.shutdownSeen || x.childDiedInStartup
+	nontrivial := len(x.parkedAtFault) > 0 || x.gateHeld || x.shutdownSeen || x.childDiedInStartup || x.stopRanged
 	var cls []string
 	if len(x.parkedAtFault) > 0 {
 		if x.restartSeen {
@@ -1219,6 +1251,9 @@ func runCase(c ccase) {
 	}
 	if x.childDiedInStartup {
 		cls = append(cls, "child-died-while-supervisor-in-init")
+	}
+	if x.stopRanged {
+		cls = append(cls, "nodestop-held-after-exit-signals")
 	}
 	detail := map[string]any{
 		"shape": c.Shape.describe(), "victim": c.Victim, "cause": c.Cause, "moment": c.Moment, "locus": c.Locus,
